@@ -329,13 +329,15 @@ example :
 
 /-- every unresolved front-end operation is either inside the `select` with the timer (the timer
 event resolves it with `RequestTimeout`), or inside `read_error`, whose wait `conn.closed()` is
-already over, so reading the slot resolves it -/
+already over, so reading the slot resolves it — or it is the application itself awaiting
+`on_disconnect()` (`watching`), which by its meaning lasts as long as the connection -/
 theorem c09_waits_raced (o : ExitOrder) (fcap : Nat) (ops : List Op) (i : Nat) (p : FPhase)
     (hp : (run o (init fcap) ops).fronts[i]? = some p) :
     (∃ r, p = .resolved r) ∨
     (frontTimer (run o (init fcap) ops) i).fronts[i]? = some (FPhase.resolved .timeout) ∨
     (p = .disconnected ∧
-      (frontReadError (run o (init fcap) ops) i).fronts[i]? = some (FPhase.resolved (slotResult (run o (init fcap) ops)))) :=
+      (frontReadError (run o (init fcap) ops) i).fronts[i]? = some (FPhase.resolved (slotResult (run o (init fcap) ops)))) ∨
+    p = .watching :=
   wait_raced o _ (inv_run o ops _ (inv_init o fcap)) i p hp
 
 example : (frontTimer (run repoExitOrder (init 4) [.frontNew true, .sendTake]) 0).fronts[0]? =
